@@ -483,7 +483,7 @@ func (f *Frame) copyOp(st *State, in ssa.Instruction, dst, src *Val) *Val {
 func (f *Frame) callContract(st *State, site ssa.CallInstruction, common *ssa.CallCommon, ct *Contract, args []*Val) *Val {
 	c := f.c
 	callee := ct.Fn
-	sc := &Scope{c: c, fr: f, st: st, old: st, vars: map[string]*Val{}}
+	sc := &Scope{c: c, fr: nil, st: st, old: st, vars: map[string]*Val{}, pkg: callee.Pkg}
 	for i, p := range callee.Params {
 		if i < len(args) {
 			sc.vars[p.Name()] = args[i]
@@ -507,10 +507,16 @@ func (f *Frame) callContract(st *State, site ssa.CallInstruction, common *ssa.Ca
 	} else {
 		f.havocLocations(st, sc, ct.Modifies)
 	}
+	freshBound := 0
+	if !ct.Pure {
+		// objects the callee allocates have contents only its postconditions describe
+		freshBound = birthBase + c.nextObj + 1
+		c.allocFrame(st)
+	}
 	// 3. results and postconditions
 	rt := resultType(common)
 	var res *Val
-	post := &Scope{c: c, fr: f, st: st, old: pre, vars: map[string]*Val{}}
+	post := &Scope{c: c, fr: nil, st: st, old: pre, vars: map[string]*Val{}, pkg: callee.Pkg, freshBound: freshBound}
 	for k, v := range sc.vars {
 		post.vars[k] = v
 	}
